@@ -3,36 +3,216 @@ import Cuckoo.Spec.Map
 namespace Cuckoo.Spec
 variable {κ ν : Type} [DecidableEq κ]
 
+theorem AMap.lookup_nil (k : κ) : (([] : AMap κ ν)).lookup k = none := rfl
+
+theorem AMap.lookup_cons (k' : κ) (v : ν) (rest : AMap κ ν) (k : κ) :
+    AMap.lookup ((k', v) :: rest) k = if k' = k then some v else AMap.lookup rest k := rfl
+
+theorem AMap.mem_of_lookup (m : AMap κ ν) (k : κ) (v : ν) (h : m.lookup k = some v) : (k, v) ∈ m := by
+  induction m with
+  | nil => cases h
+  | cons p rest ih =>
+    obtain ⟨k', w⟩ := p
+    rw [AMap.lookup_cons] at h
+    split at h
+    · rename_i e
+      cases h
+      rw [e]
+      exact List.mem_cons_self
+    · exact List.mem_cons_of_mem _ (ih h)
+
 theorem AMap.lookup_eq_some_iff (m : AMap κ ν) (hn : (m.map Prod.fst).Nodup) (k : κ) (v : ν) :
     m.lookup k = some v ↔ (k, v) ∈ m := by
-  sorry
+  refine ⟨AMap.mem_of_lookup m k v, ?_⟩
+  induction m with
+  | nil => intro h; cases h
+  | cons p rest ih =>
+    obtain ⟨k', w⟩ := p
+    intro h
+    rw [List.map_cons, List.nodup_cons] at hn
+    rw [AMap.lookup_cons]
+    rcases List.mem_cons.mp h with e | e
+    · cases e
+      rw [if_pos rfl]
+    · have hne : k' ≠ k := by
+        intro e'
+        apply hn.1
+        rw [List.mem_map]
+        exact ⟨(k, v), e, e'.symm⟩
+      rw [if_neg hne]
+      exact ih hn.2 e
 
 theorem AMap.lookup_eq_none_iff (m : AMap κ ν) (k : κ) : m.lookup k = none ↔ ∀ v, (k, v) ∉ m := by
-  sorry
+  induction m with
+  | nil => exact ⟨fun _ v h => (nomatch h), fun _ => rfl⟩
+  | cons p rest ih =>
+    obtain ⟨k', w⟩ := p
+    rw [AMap.lookup_cons]
+    by_cases e : k' = k
+    · rw [if_pos e]
+      constructor
+      · intro h; cases h
+      · intro h
+        exact absurd (by rw [e]; exact List.mem_cons_self) (h w)
+    · rw [if_neg e, ih]
+      constructor
+      · intro h v hv
+        rcases List.mem_cons.mp hv with e' | e'
+        · cases e'; exact e rfl
+        · exact h v e'
+      · intro h v hv
+        exact h v (List.mem_cons_of_mem _ hv)
 
 theorem AMap.mem_erase (m : AMap κ ν) (k k' : κ) (v : ν) : (k', v) ∈ m.erase k ↔ ((k', v) ∈ m ∧ k' ≠ k) := by
-  sorry
+  unfold AMap.erase
+  rw [List.mem_filter]
+  simp
 
 theorem AMap.nodup_erase (m : AMap κ ν) (hn : (m.map Prod.fst).Nodup) (k : κ) : ((m.erase k).map Prod.fst).Nodup := by
-  sorry
+  unfold AMap.erase
+  exact hn.sublist (List.Sublist.map _ List.filter_sublist)
 
 /-- erasing a present key shortens the list by exactly one -/
 theorem AMap.length_erase_of_mem (m : AMap κ ν) (hn : (m.map Prod.fst).Nodup) (k : κ) (v : ν) (h : (k, v) ∈ m) :
     (m.erase k).length + 1 = m.length := by
-  sorry
+  induction m with
+  | nil => cases h
+  | cons p rest ih =>
+    obtain ⟨k', w⟩ := p
+    rw [List.map_cons, List.nodup_cons] at hn
+    unfold AMap.erase at ih ⊢
+    rcases List.mem_cons.mp h with e | e
+    · cases e
+      have hall : rest.filter (fun p => decide (p.1 ≠ k)) = rest := by
+        rw [List.filter_eq_self]
+        intro a ha
+        simp only [ne_eq, decide_not, Bool.not_eq_eq_eq_not, Bool.not_true, decide_eq_false_iff_not]
+        intro e'
+        apply hn.1
+        rw [List.mem_map]
+        exact ⟨a, ha, e'⟩
+      rw [List.filter_cons_of_neg (by simp), hall]
+      rfl
+    · have hne : k' ≠ k := by
+        intro e'
+        apply hn.1
+        rw [List.mem_map]
+        exact ⟨(k, v), e, e'.symm⟩
+      rw [List.filter_cons_of_pos (by simpa using hne)]
+      simp only [List.length_cons]
+      rw [ih hn.2 e]
+
+/-- without the nodup hypothesis (general form of `mem_set`) -/
+theorem AMap.mem_set' (m : AMap κ ν) (k k' : κ) (v v' : ν) :
+    (k', v') ∈ m.set k v ↔ (((k', v') ∈ m ∧ k' ≠ k) ∨ (k' = k ∧ v' = v ∧ ∃ w, (k, w) ∈ m)) := by
+  unfold AMap.set
+  rw [List.mem_map]
+  constructor
+  · rintro ⟨⟨a, w⟩, ha, e⟩
+    by_cases hk : a = k
+    · simp only [hk, if_true] at e
+      cases e
+      subst hk
+      exact .inr ⟨rfl, rfl, w, ha⟩
+    · simp only [hk, if_false] at e
+      cases e
+      exact .inl ⟨ha, hk⟩
+  · rintro (⟨h1, h2⟩ | ⟨rfl, rfl, w, hw⟩)
+    · exact ⟨(k', v'), h1, by simp [h2]⟩
+    · exact ⟨(k', w), hw, by simp⟩
 
 theorem AMap.mem_set (m : AMap κ ν) (hn : (m.map Prod.fst).Nodup) (k k' : κ) (v v' : ν) (hk : ∃ w, (k, w) ∈ m) :
     (k', v') ∈ m.set k v ↔ (((k', v') ∈ m ∧ k' ≠ k) ∨ (k' = k ∧ v' = v)) := by
-  sorry
+  have _ := hn
+  rw [AMap.mem_set']
+  constructor
+  · rintro (h | ⟨h1, h2, _⟩)
+    · exact .inl h
+    · exact .inr ⟨h1, h2⟩
+  · rintro (h | ⟨h1, h2⟩)
+    · exact .inl h
+    · exact .inr ⟨h1, h2, hk⟩
+
+theorem AMap.map_fst_set (m : AMap κ ν) (k : κ) (v : ν) : (m.set k v).map Prod.fst = m.map Prod.fst := by
+  unfold AMap.set
+  rw [List.map_map]
+  apply List.map_congr_left
+  intro a _
+  simp only [Function.comp]
+  split
+  · rename_i e; exact e.symm
+  · rfl
 
 theorem AMap.nodup_set (m : AMap κ ν) (hn : (m.map Prod.fst).Nodup) (k : κ) (v : ν) : ((m.set k v).map Prod.fst).Nodup := by
-  sorry
+  rw [AMap.map_fst_set]; exact hn
 
 @[simp] theorem AMap.length_set (m : AMap κ ν) (k : κ) (v : ν) : (m.set k v).length = m.length := by
   simp [AMap.set]
 
 theorem AMap.nodup_add (m : AMap κ ν) (hn : (m.map Prod.fst).Nodup) (k : κ) (v : ν) (h : m.lookup k = none) :
     ((m.add k v).map Prod.fst).Nodup := by
-  sorry
+  unfold AMap.add
+  rw [List.map_cons, List.nodup_cons]
+  refine ⟨?_, hn⟩
+  intro hm
+  rw [List.mem_map] at hm
+  obtain ⟨⟨a, w⟩, ha, e⟩ := hm
+  simp only at e
+  subst e
+  exact (AMap.lookup_eq_none_iff m a).mp h w ha
+
+/-! ### more equations -/
+
+theorem AMap.erase_of_lookup_none (m : AMap κ ν) (k : κ) (h : m.lookup k = none) : m.erase k = m := by
+  unfold AMap.erase
+  rw [List.filter_eq_self]
+  rintro ⟨a, w⟩ ha
+  simp only [ne_eq, decide_not, Bool.not_eq_eq_eq_not, Bool.not_true, decide_eq_false_iff_not]
+  intro e
+  subst e
+  exact (AMap.lookup_eq_none_iff m a).mp h w ha
+
+theorem AMap.set_of_lookup_none (m : AMap κ ν) (k : κ) (v : ν) (h : m.lookup k = none) : m.set k v = m := by
+  unfold AMap.set
+  conv => rhs; rw [← List.map_id m]
+  apply List.map_congr_left
+  rintro ⟨a, w⟩ ha
+  have : a ≠ k := by
+    intro e
+    subst e
+    exact (AMap.lookup_eq_none_iff m a).mp h w ha
+  simp [this]
+
+theorem AMap.add_set (m : AMap κ ν) (k : κ) (v v' : ν) (h : m.lookup k = none) :
+    (m.add k v).set k v' = m.add k v' := by
+  have := AMap.set_of_lookup_none m k v' h
+  unfold AMap.set at this
+  unfold AMap.add AMap.set
+  rw [List.map_cons, this]
+  simp
+
+theorem AMap.add_erase (m : AMap κ ν) (k : κ) (v : ν) (h : m.lookup k = none) :
+    (m.add k v).erase k = m := by
+  have := AMap.erase_of_lookup_none m k h
+  unfold AMap.erase at this
+  unfold AMap.add AMap.erase
+  rw [List.filter_cons_of_neg (by simp), this]
+
+theorem AMap.set_erase (m : AMap κ ν) (k : κ) (v : ν) : (m.set k v).erase k = m.erase k := by
+  unfold AMap.set AMap.erase
+  induction m with
+  | nil => rfl
+  | cons p rest ih =>
+    obtain ⟨a, w⟩ := p
+    rw [List.map_cons]
+    by_cases e : a = k
+    · simp only [e, if_true]
+      rw [List.filter_cons_of_neg (by simp), List.filter_cons_of_neg (by simp), ih]
+    · simp only [e, if_false]
+      rw [List.filter_cons_of_pos (by simpa using e), List.filter_cons_of_pos (by simpa using e), ih]
+
+theorem AMap.lookup_add_self (m : AMap κ ν) (k : κ) (v : ν) : (m.add k v).lookup k = some v := by
+  unfold AMap.add
+  rw [AMap.lookup_cons, if_pos rfl]
 
 end Cuckoo.Spec
